@@ -381,6 +381,8 @@ def render_evolution_file(evo):
     lines.append('')
     lines.append('MUTATIONS = [')
     for m in evo['mutations']:
+        if m['op'] == 'NewModel':
+            continue
         lines.append('    %s,' % render_mutation(m))
     lines.append(']')
     return '\n'.join(lines) + '\n'
@@ -583,6 +585,12 @@ def apply_mutation(state, app, mut):
         del models[:]
     elif op in ('SQLMutation', 'MoveToDjangoMigrations'):
         pass
+    elif op == 'NewModel':
+        # not a mutation: the model simply appears in the next version and
+        # the evolver creates it ("new models")
+        if find_model(models, mut['model']['name']):
+            raise SpecError('model exists')
+        models.append(copy.deepcopy(mut['model']))
     elif op == 'RenameAppLabel':
         # handled at project level by the generator (label of the app
         # changes; tables pinned).  State keyed by *current* label.
